@@ -24,7 +24,7 @@ func init() {
 			"(2) accepted bytes: honest encodings with trailing bytes, over-long varints, content mutations and the Rust interop vectors: whenever a decoder accepts b, the reference encoding c of the decoded value has len(c) <= len(b), decodes to the same value and equals obj.Marshal(), also on an object that previously held and had marshalled another value; " +
 			"(3) type separation: every 16-bit tag x body of each type x each of the four request decoders (exhaustive), and generic batches with a foreign-typed element at each position. " +
 			"A coverage-guided stage (Go native fuzzing, FuzzC04) offers arbitrary byte strings to every decoder and applies the accepted-bytes oracle whenever one accepts (40 000 / 4 000 000 executions). distinct_nontrivial = distinct (message type, monitor, field-length vector or mutation class) keys",
-		Floors:            []string{"value_roundtrip_ok", "accepted_bytes_checked", "accepted_noncanonical", "reuse_checked", "tag_rejected", "tag_accepted_own", "batch_foreign_type_rejected", "rust_vector_decoded", "decode_again_after_caller_edit_ok"},
+		Floors:            []string{"value_roundtrip_ok", "accepted_bytes_checked", "accepted_noncanonical", "reuse_checked", "tag_rejected", "tag_accepted_own", "batch_foreign_type_rejected", "rust_vector_decoded", "decode_again_after_caller_edit_ok", "mixed_batches_with_stride_friendly_length"},
 		Assumptions:       []string{"well-formed value domain as stated in DESIGN.md C04 (origin names without ',', [\"\"] for the empty origin list, field widths of the structs)"},
 		FuzzTarget:        "FuzzC04",
 		FuzzExecsQuick:    40000,
@@ -790,9 +790,41 @@ func (m c04) batchValue(r *core.Rand, i int) {
 			reqs = append(reqs, &type2.BasicPublicTokenRequest{TokenKeyID: q.keyID, BlindedReq: clone(q.blinded)})
 		}
 	}
+	if i%8 == 5 {
+		// mixed batches whose total length is a multiple of the FIRST request's length (52 = type 1, 259 = type 2):
+		// one type-1 request and 52 type-2 requests; one type-2 request and 259 type-1 requests; the same reversed
+		rs, reqs = nil, nil
+		add := func(typ uint16, k int) {
+			for j := 0; j < k; j++ {
+				q := refReq{typ, byte(r.IntN(256)), r.Bytes(map[uint16]int{1: 49, 2: 256}[typ])}
+				rs = append(rs, q)
+				if typ == 1 {
+					reqs = append(reqs, &type1.BasicPrivateTokenRequest{TokenKeyID: q.keyID, BlindedReq: clone(q.blinded)})
+				} else {
+					reqs = append(reqs, &type2.BasicPublicTokenRequest{TokenKeyID: q.keyID, BlindedReq: clone(q.blinded)})
+				}
+			}
+		}
+		switch (i / 8) % 4 {
+		case 0:
+			add(1, 1)
+			add(2, 52)
+		case 1:
+			add(2, 1)
+			add(1, 259)
+		case 2:
+			add(2, 52)
+			add(1, 1)
+		default:
+			add(1, 1)
+			add(2, 104)
+		}
+		n = len(rs)
+		c.Class("mixed_batches_with_stride_friendly_length")
+	}
 	want := encBatch(rs)
 	c.Eval(1)
-	d := map[string]any{"elements": n, "encoding": core.Hex(want)}
+	d := map[string]any{"elements": n, "encoding": core.Hex(want[:min(len(want), 600)])}
 	pan, pv, where := core.Guard(func() {
 		br, err := batched.NewBasicClient().CreateTokenRequest(reqs)
 		if err != nil {
